@@ -83,13 +83,13 @@ def monitorsWant (c : Spec.Ctx) (obsDelta : Int) (j : Journal) (fatalHere : Bool
 def monitors (c : Spec.Ctx) (j : Journal) (fatalHere : Bool) : List String :=
   ((Spec.C19.scanBad c j fatalHere).map (fun t => "C19|" ++ t)) ++
   (if Spec.C01.holds c j then [] else ["C01|" ++ ";".intercalate (Spec.C01.bad c j)]) ++
-  (if Spec.C03.holds c j then [] else ["C03"]) ++
+  (if Spec.C03.holds c j then [] else ["C03|taints added although fewer than min_nodes untainted nodes remain (or while below the minimum)"]) ++
   (if Spec.C12.holds c j then [] else ["C12|" ++ ";".intercalate ((j.filter (fun e => !Spec.C12.okEntry c e)).map (fun e => (toJson e.call).compress))]) ++
-  (if Spec.C08.holds c j then [] else ["C08"]) ++
-  (if Spec.C04.holds c j then [] else ["C04"]) ++
-  (if Spec.C09.holds c j then [] else ["C09"]) ++
-  (if Spec.C10.holds c j then [] else ["C10"]) ++
-  (if Spec.C11.holds c j then [] else ["C11"])
+  (if Spec.C08.holds c j then [] else ["C08|a node never attempted stays untainted although strictly older than a node tainted in this scan; tainted: " ++ toString (Spec.taintedNames c.view j)]) ++
+  (if Spec.C04.holds c j then [] else ["C04|a resize request takes the target above min(max_nodes, cloud max), counted from the desired size at that moment"]) ++
+  (if Spec.C09.holds c j then [] else ["C09|a call targets a cordoned node of this scan's view"]) ++
+  (if Spec.C10.holds c j then [] else ["C10|a removal call targets a node protected by the no-delete annotation"]) ++
+  (if Spec.C11.holds c j then [] else ["C11|a write was issued for a group in dry mode: " ++ ";".intercalate ((j.filter Spec.isWrite).map (fun e => ((toJson e.call).compress.take 120).toString))])
 
 /-- Pre-scan context of each group as the model sees it: needs the refreshed provider and the
     auto-discovered bounds, which we recompute by running the prologue of `runOnce`. -/
